@@ -34,6 +34,11 @@ def shards(tier, prop):
     if prop in ('C12', 'C13', 'C19', 'C02', 'C03', 'C08'):
         out = timing_family(props, tier)
         out.append(G('delay', [(0, 2), (1, 2), (1, 2), (0, 2), (0, 2), (0, 2), (0, 2), (0, 1)], props, alg='batch1'))
+    elif prop == 'C09':
+        for alg in ('batch1', 'batch2'):
+            out.append(G('two', R_TWO, props, alg=alg))
+            out.append(G('three', R_THREE, props, alg=alg, shape='join'))
+            out.append(G('three', R_THREE, props, alg=alg, shape='free', machines=[10, 20, 10, 10], ingest=[2, 1, 1]))
     elif prop == 'C04':
         out = timing_family(props, tier)
         out.append(G('delay', [(0, 2), (1, 2), (1, 2), (0, 2), (0, 2), (0, 2), (0, 2), (0, 1)], props, alg='queue'))
